@@ -287,14 +287,16 @@ def lrtTest (isf : Rat → Nat → Rat) (parentN childN : Nat) (parentOfv childO
 def bestOfTwo (isf : Rat → Nat → Rat) (parentN childN : Nat) (parentOfv childOfv : Val) (alpha : Rat) : Bool :=
   lrtTest isf parentN childN parentOfv childOfv alpha
 
-/-- `np.nanargmin`: index of the first minimal non-NaN entry, `none` = ValueError (all NaN / empty). -/
-def nanargminAux : List Val → Nat → Option (Nat × Rat) → Option (Nat × Rat)
-  | [], _, best => best
-  | .nan :: xs, i, best => nanargminAux xs (i + 1) best
-  | .num v :: xs, i, none => nanargminAux xs (i + 1) (some (i, v))
-  | .num v :: xs, i, some (j, b) => nanargminAux xs (i + 1) (if v < b then some (i, v) else some (j, b))
+/-- `np.nanargmin`: (index, value) of the first minimal non-NaN entry, `none` = ValueError (all NaN / empty). -/
+def nanargminV : List Val → Option (Nat × Rat)
+  | [] => none
+  | .nan :: xs => (nanargminV xs).map (fun p => (p.1 + 1, p.2))
+  | .num v :: xs =>
+    match nanargminV xs with
+    | none => some (0, v)
+    | some (j, b) => if b < v then some (j + 1, b) else some (0, v)
 
-def nanargmin (xs : List Val) : Option Nat := (nanargminAux xs 0 none).map (·.1)
+def nanargmin (xs : List Val) : Option Nat := (nanargminV xs).map (·.1)
 
 /-- `best_of_many`: `none` = the parent, `some i` = `models[i]`.
     `models` = (number of parameters, OFV) per candidate. -/
@@ -429,7 +431,10 @@ structure Vis where
   hasEta : Bool
   deriving Repr, Inhabited
 
-def unionS (a b : List String) : List String := a ++ (b.filter (fun x => !a.contains x)).eraseDups
+def addNew (acc : List String) (x : String) : List String := if acc.contains x then acc else acc ++ [x]
+
+/-- set union on duplicate-free lists -/
+def unionS (a b : List String) : List String := b.foldl addNew a
 
 def catStep (st : List String × List String) (v : Vis) : List String × List String :=
   if v.hasEta then (st.1.filter (fun x => !v.pars.contains x), unionS st.2 v.pars)
